@@ -6,7 +6,9 @@ context-manager classes, the four gate functions) and every gate site reached th
 History: a seeded, nested program of enable/disable calls, `with enable():` /
 `with disable():` blocks (depth <= 4) whose bodies may raise at a drawn position (a
 harness exception or the GuppyError of a rejected check, caught at a drawn outer level),
-interleaved with checks of probe programs (15 gated constructs x 7 contexts + control).
+interleaved with checks of probe programs (23 gated constructs x 7 contexts + control,
+each optionally carrying a second ordinary mistake before / inside / after the construct so
+that the check fails part-way through CFG construction, type or linearity checking).
 Reference model: an explicit save/restore stack.  Invariants after every op.
 """
 from __future__ import annotations
@@ -24,6 +26,7 @@ LEVEL = "exploration"
 CASE_CAP = 30.0
 ASSUMPTIONS = [
     "context managers are used in the `with enable_experimental_features():` idiom (constructed and entered in one step); the reference restores the value seen at construction",
+    "a probe program that carries a second, ordinary mistake must be rejected in both gate states; with the gate closed either of its two errors may be reported, with the gate open never the experimental one",
     "a gated program counts as correctly rejected when check() raises GuppyError carrying ExperimentalFeatureError, or UnsupportedError('Capturing closures') for closures (the code's documented behaviour)",
     "gated constructs in unreachable code are not generated (the checker does not visit dead code; the property does not say it must)",
     "/repo sources run on newer dependency versions through the 3-point compat shim (verif/compat)",
@@ -32,13 +35,21 @@ MANIFEST = {
     "level": LEVEL,
     "technique": "deterministic simulation: seeded histories of nested enable/disable context managers with injected exceptional exits, checked against a save/restore stack model",
     "text": "Seeded exploration of histories (nesting <= 4, exceptions injected at drawn positions and caught at drawn levels) over the real flag, context managers and all gate sites; after every op the flag equals the reference stack model and every probe program is accepted iff ungated or the model says the gate is open. Sampling, not proof.",
-    "note": "Trusted: the reference stack model (20 lines), the probe-program table (validated: all 105 gated kind x context pairs are rejected closed / accepted open on the unchanged tree), the compat shim.",
+    "note": "Trusted: the reference stack model (20 lines), the probe-program table (validated by bin/c33_table.py: all 161 gated kind x context pairs are rejected closed / accepted open, and all 7 fault kinds x 3 positions of each are rejected in both gate states, 6258 checks, on the unchanged tree), the compat shim.",
     "design_ref": "DESIGN.md section 3 (C33)",
 }
 
 
 class SimRaise(Exception):
     pass
+
+
+def family(kind: str) -> str:
+    return kind.split("_")[0].rstrip("2")
+
+
+def pname(p: dict) -> str:
+    return p["kind"] + "/" + p["ctx"] + (f"/fault:{p['fault'][0]}@{p['fault'][1]}" if p["fault"] else "")
 
 
 def warm() -> None:
@@ -120,19 +131,34 @@ class Run:
         self.model = X.EXPERIMENTAL_FEATURES_ENABLED
         self.viol: list[dict] = []
         self.steps = 0
-        self.faults = {"sim_raise": 0, "guppy_error_propagated": 0, "exceptional_with_exit": 0}
+        self.faults = {"sim_raise": 0, "guppy_error_propagated": 0, "exceptional_with_exit": 0,
+                       "failing_check_of_gated_program": 0}
         self.probes = {"depth>=3": 0, "exception_crossed>=2_withs": 0,
                        "same_program_both_gate_states": 0, "check_after_exceptional_exit": 0,
-                       "gated_rejected": 0, "gated_accepted_open": 0}
+                       "gated_rejected": 0, "gated_accepted_open": 0,
+                       "failed_midway_with_gate_open": 0}
         self.depth = 0
         self.crossing = 0
         self.had_exc_exit = False
         n = ch.rng_int(2, 5, "n_probes")
         self.progs = []
-        for _ in range(n):
-            kind = ch.pick(P.ALL_KINDS, "kind")
+        for i in range(n):
+            # related programs (same gate family as the first one) exercise state that
+            # one gate site may keep between checks
+            if i > 0 and ch.draw(2, "related"):
+                fam = family(self.progs[0]["kind"])
+                kind = ch.pick([k for k in P.ALL_KINDS if family(k) == fam], "kind_rel")
+            else:
+                kind = ch.pick(P.ALL_KINDS, "kind")
             ctx = ch.pick(P.CONTEXTS, "ctx")
-            self.progs.append({"kind": kind, "ctx": ctx, "mod": None, "seen": set()})
+            fault = None
+            if ch.draw(3, "faulty") == 0:
+                fault = (ch.pick(tuple(P.FAULTS), "fault_kind"),
+                         ("before", "after", "inside", "inside")[ch.draw(4, "fault_pos")])
+                if not P.usable(kind, ctx, fault):
+                    fault = None
+            self.progs.append({"kind": kind, "ctx": ctx, "fault": fault, "mod": None,
+                               "seen": set()})
 
     def violation(self, cls: str, sig: dict, expected, observed) -> None:
         self.viol.append({"cls": f"C33/{cls}", "sig": sig, "expected": expected,
@@ -149,7 +175,7 @@ class Run:
         _, pi, propagate, compile_ = op
         p = self.progs[pi]
         if p["mod"] is None:
-            p["mod"] = genv.make_module(f"c33_p{pi}", P.program(p["kind"], p["ctx"]))
+            p["mod"] = genv.make_module(f"c33_p{pi}", P.program(p["kind"], p["ctx"], p["fault"]))
         main = p["mod"].main
         thunk = (lambda: main.compile_function()) if compile_ else (lambda: main.check())
         held = {}
@@ -165,15 +191,33 @@ class Run:
         o = genv.outcome(wrapped)
         gated = p["kind"] not in P.UNGATED
         sig = {"kind": p["kind"], "ctx": p["ctx"], "op": "compile" if compile_ else "check"}
-        self.log.add("check", p["kind"], p["ctx"], "gate", self.model, "->", genv.short(o))
+        if p["fault"]:
+            sig["fault"] = list(p["fault"])
+        self.log.add("check", pname(p), "gate", self.model, "->", genv.short(o))
         if self.had_exc_exit:
             self.probes["check_after_exceptional_exit"] += 1
         p["seen"].add(self.model)
         if len(p["seen"]) == 2:
             self.probes["same_program_both_gate_states"] += 1
             p["seen"].add("counted")
+        is_exp = o["kind"] == "guppy_error" and (
+            o["error"] == "ExperimentalFeatureError" or (
+                p["kind"].startswith("closure") and o["error"] == "UnsupportedError"
+                and "Capturing closures" in o["text"]))
         if o["kind"] == "exception":
             self.violation("CRASH", sig, "ok or GuppyError", f"{o['error']}: {o['text']}")
+        elif p["fault"]:
+            # a program with a second, ordinary mistake is rejected in both gate states;
+            # which of its two errors is reported with the gate closed is not pinned down
+            # by the property, but with the gate open it is never the experimental one
+            self.faults["failing_check_of_gated_program"] += 1
+            if o["kind"] == "ok":
+                self.violation("FAULTY_ACCEPTED", sig, "GuppyError", "accepted")
+            elif self.model and is_exp:
+                self.violation("REJECTED_WHILE_ALLOWED", sig, "the ordinary error",
+                               o["error"] + ": " + " ".join(o["text"].split())[:200])
+            elif self.model:
+                self.probes["failed_midway_with_gate_open"] += 1
         elif self.model or not gated:
             if o["kind"] != "ok":
                 self.violation("REJECTED_WHILE_ALLOWED", sig, "accepted",
@@ -184,10 +228,7 @@ class Run:
             if o["kind"] == "ok":
                 self.violation("GATE_OPEN", sig, "experimental-feature error", "accepted")
             else:
-                ok_err = o["error"] == "ExperimentalFeatureError" or (
-                    p["kind"].startswith("closure") and o["error"] == "UnsupportedError"
-                    and "Capturing closures" in o["text"])
-                if not ok_err:
+                if not is_exp:
                     self.violation("WRONG_ERROR", sig, "ExperimentalFeatureError",
                                    o["error"] + ": " + " ".join(o["text"].split())[:200])
                 else:
@@ -269,14 +310,14 @@ def run_case(ch: Choices, params: dict) -> dict:
         run.violation("CRASH", {"where": "tail"}, "no exception", repr(e))
     shape = "\n".join(render_ops(ops))
     key = hashlib.sha256((shape + "|" + ",".join(
-        p["kind"] + "/" + p["ctx"] for p in run.progs)).encode()).hexdigest()[:16]
+        pname(p) for p in run.progs)).encode()).hexdigest()[:16]
     nontrivial = (run.faults["exceptional_with_exit"] > 0 or "        with" in shape) and \
         (run.probes["gated_rejected"] + run.probes["gated_accepted_open"]) > 0
     res = {
         "violations": run.viol, "digest": run.log.digest(), "steps": run.steps,
         "faults": run.faults, "probes": run.probes,
         "keys": [key], "nontrivial_keys": [key] if nontrivial else [],
-        "trace": {"programs": [p["kind"] + "/" + p["ctx"] for p in run.progs],
+        "trace": {"programs": [pname(p) for p in run.progs],
                   "history": render_ops(ops), "events": run.log.events},
     }
     if nontrivial and ch.record and ch.record[0] % 7 == 0 or run.viol:
@@ -293,5 +334,5 @@ def coverage(agg, plan: dict) -> dict:
         "components_real": ["guppylang_internals.experimental (flag, context managers, gate functions)",
                             "guppylang.experimental re-exports", "CompilationEngine.check/compile and all gate sites (cfg builder, expr checker, func checker, tys/builtin)"],
         "components_stub": ["compat shim (3 patch points) between /repo sources and installed hugr/tket-exts"],
-        "fault_kinds": "sim_raise = harness exception raised inside a with-body; guppy_error_propagated = GuppyError of a rejected check left to propagate; exceptional_with_exit = with-blocks left by exception",
+        "fault_kinds": "sim_raise = harness exception raised inside a with-body; guppy_error_propagated = GuppyError of a rejected check left to propagate; exceptional_with_exit = with-blocks left by exception; failing_check_of_gated_program = check of a probe program that carries a second ordinary mistake (fails in CFG construction / type checking / linearity checking)",
     }
